@@ -12,16 +12,19 @@ META = {
                  "oracle on the real Handler against SQLite files",
     "text": "Theorem C17_exits_closed: for every source shape in which each failure exit of the Begin...Commit region is "
             "preceded by a rollback, the commit-error exit does not reuse the last operation's status and a failed commit "
-            "clears the wrapper's Transaction pointer, and for all SQLite state spaces, task lists, operation outcomes, "
+            "clears the wrapper's Transaction pointer and every operation statement goes through the Database shim that uses the "
+            "open transaction (no handler touches db.Handle itself), and for all SQLite state spaces, task lists, operation outcomes, "
             "error-condition outcomes (blank/malformed/eval error/true/false) and commit outcomes: after return no "
             "transaction is open, nothing is pending, the handle is closed, the status is 200 exactly when everything "
             "ran clean and the commit worked, and the durable state is then all operations applied and otherwise the "
             "initial state. C17_all_or_nothing instantiates it for the repaired tree; the shape of the current source is "
             "re-extracted and re-checked (exits_match, C17_current_source) on every run; C17_old_refuted_open / "
-            "C17_old_refuted_commit are the two defects of the pinned tree (repaired by fix ea0fbf1e). SQLite's own "
+            "C17_old_refuted_commit are the two defects of the pinned tree (repaired by fix ea0fbf1e); C17_bypass_refuted shows a "
+            "statement sent to the bare handle survives the rollback. SQLite's own "
             "commit/rollback atomicity is assumed. full",
     "note": "Trusted: Coq kernel; the go/ast translator in harness/C17/c17_test.go (anchors: db.Begin(), db.Rollback(), "
-            "db.Commit(), d.Transaction = nil, d.Transaction != nil) and its mapping to the model's shape in props/C17.py; "
+            "db.Commit(), d.Transaction = nil, d.Transaction != nil, d.Transaction.Exec/Query in the shim, any .Handle/.Transaction "
+            "selector in scripting/*.go) and its mapping to the model's shape in props/C17.py; "
             "SQLite/modernc driver semantics as modelled (failed COMMIT is rolled back by the driver); the guards that "
             "operation handlers never pair an error with status 200 (observed on every run) and that the client does not "
             "itself request status 200 for a tripped condition.",
@@ -45,6 +48,9 @@ class Sim:
         self.t = dict(INIT_T)
         self.tables = {"child", "d1", "d2", "parent", "probe", "t"}
         self.child = {}
+        self.indexes = set()
+        self.views = set()
+        self.tcols = ["id", "v"]
         self.parents = {1}
         self.next_id = 10
         self.syms = False
@@ -53,13 +59,62 @@ class Sim:
     def snap(self):
         return {"t": ["%d=%s" % (k, self.t[k]) for k in sorted(self.t)],
                 "child": ["%d>%d" % (k, self.child[k]) for k in sorted(self.child)],
-                "tables": sorted(self.tables)}
+                "tables": sorted(self.tables), "indexes": sorted(self.indexes), "views": sorted(self.views),
+                "tcols": list(self.tcols)}
+
+
+def ddl_op(rng, s):
+    """A schema-changing statement through the raw sql opcode (succeeds on the simulated state)."""
+    for _ in range(10):
+        k = rng.choice(["create-table", "create-index", "alter-add", "create-view", "drop-table", "drop-index", "drop-view"])
+        n = s.next_id
+        if k == "create-table":
+            s.next_id += 1
+            s.tables.add("nt%d" % n)
+            s.wrote = True
+            return {"operation": "sql", "sql": "CREATE TABLE nt%d (id INTEGER, note TEXT)" % n}, "sql-" + k
+        if k == "create-index":
+            s.next_id += 1
+            s.indexes.add("ix%d" % n)
+            s.wrote = True
+            return {"operation": "sql", "sql": "CREATE INDEX ix%d ON t (v)" % n}, "sql-" + k
+        if k == "alter-add":
+            s.next_id += 1
+            s.tcols.append("c%d" % n)
+            s.wrote = True
+            return {"operation": "sql", "sql": "ALTER TABLE t ADD COLUMN c%d INTEGER" % n}, "sql-" + k
+        if k == "create-view":
+            s.next_id += 1
+            s.views.add("vw%d" % n)
+            s.wrote = True
+            return {"operation": "sql", "sql": "CREATE VIEW vw%d AS SELECT id FROM t" % n}, "sql-" + k
+        if k == "drop-table":
+            d = [x for x in ("d1", "d2") if x in s.tables]
+            if d:
+                x = rng.choice(d)
+                s.tables.discard(x)
+                s.wrote = True
+                return {"operation": "sql", "sql": "DROP TABLE %s" % x}, "sql-" + k
+        if k == "drop-index" and s.indexes:
+            x = rng.choice(sorted(s.indexes))
+            s.indexes.discard(x)
+            return {"operation": "sql", "sql": "DROP INDEX %s" % x}, "sql-" + k
+        if k == "drop-view" and s.views:
+            x = rng.choice(sorted(s.views))
+            s.views.discard(x)
+            return {"operation": "sql", "sql": "DROP VIEW %s" % x}, "sql-" + k
+    s.next_id += 1
+    s.tables.add("nt%d" % n)
+    s.wrote = True
+    return {"operation": "sql", "sql": "CREATE TABLE nt%d (id INTEGER, note TEXT)" % n}, "sql-create-table"
 
 
 def good_op(rng, s):
     """One operation that succeeds on the simulated state; returns (json, kind)."""
     kinds = ["insert", "update", "delete", "select", "readrows", "symbols", "drop", "sql-insert", "sql-update",
              "sql-delete", "sql-select", "sql-child"]
+    if rng.random() < 0.15:
+        return ddl_op(rng, s)
     for _ in range(20):
         k = rng.choice(kinds)
         ids = sorted(s.t)
@@ -153,15 +208,16 @@ BAD_OPS = {
 SELF_ROLLBACK = {"insert-coerce"}     # doInsert's FormInsertQuery path rolls back itself before returning the error
 
 
-def make_case(rng, cid, n_ops, fault):
-    """fault: None | ("op", i, kind) | ("cond", i, kind, pos, status) | ("commit", i) | ("pre", kind)."""
+def make_case(rng, cid, n_ops, fault, ddl_first=False):
+    """fault: None | ("op", i, kind) | ("cond", i, kind, pos, status) | ("commit", i) | ("pre", kind).
+    ddl_first: operation 0 is a schema-changing raw-SQL statement (before the request holds any write lock)."""
     s = Sim()
     ops, model, kinds = [], [], []
     case = {"id": cid, "fault": list(fault) if fault else None}
     if fault and fault[0] == "pre":
         k = fault[1]
         if k == "decode":
-            case["raw"] = rng.choice(["{", "", "[{\"operation\": 5}]", "x", "[1,2", "{\"operation\": \"insert\"}"])
+            case["raw"] = rng.choice(["{", "   ", "[{\"operation\": 5}]", "x", "[1,2", "{\"operation\": \"insert\"}"])
         elif k == "badop":
             op, _ = good_op(rng, s)
             ops = [op, {"operation": rng.choice(["bogus", "truncate", ""])}]
@@ -209,7 +265,7 @@ def make_case(rng, cid, n_ops, fault):
             kinds.append("sql-child-dangling")
             model.append({"res": "OpOk", "conds": []})
             continue
-        op, k = good_op(rng, s)
+        op, k = ddl_op(rng, s) if (ddl_first and i == 0) else good_op(rng, s)
         conds, mconds = [], []
         nb = rng.choice([0, 0, 1, 2])
         for _ in range(nb):
@@ -273,6 +329,12 @@ def corpus(rng):
     for n in (1, 2, 5, 9):
         cid[0] += 1
         cs.append(make_case(wr, cid[0], n, None))
+    # schema-changing raw SQL as the first operation, then each kind of failure (and success)
+    for rep in range(7):
+        for f in (("op", 1, "select-notable"), ("op", 2, "insert-dup"), ("cond", 1, "true", 409), ("cond", 0, "evalerr", 0),
+                  ("commit", 2), None):
+            cid[0] += 1
+            cs.append(make_case(wr, cid[0], 3, f, ddl_first=True))
     return cs, cid[0]
 
 
@@ -292,7 +354,7 @@ def gen_cases(rng, n, start):
             f = ("commit", rng.randrange(n_ops))
         else:
             f = ("pre", rng.choice(["decode", "badop", "nodsn", "nosqlperm", "empty"]))
-        out.append(make_case(rng, start + 1 + j, n_ops, f))
+        out.append(make_case(rng, start + 1 + j, n_ops, f, ddl_first=(f is None or f[0] != "pre") and rng.random() < 0.25))
     return out
 
 
@@ -324,9 +386,10 @@ def shape_from(sh):
     stale = any(e["site"] == "commiterr" and e["status"] in ("httpStatus", "http.StatusOK") for e in ex)
     d = {"rb_formcond": rb("formcond"), "rb_eval": rb("eval"), "rb_condtrue": rb("condtrue"), "rb_operr": rb("operr"),
          "commit_stale_status": stale, "commit_clears_on_err": sh["commit_clears_on_err"],
-         "close_skips_open_tx": sh["close_skips_open_tx"], "defer_close": sh["defer_close"] and sh["close_closes_handle"]}
+         "close_skips_open_tx": sh["close_skips_open_tx"], "defer_close": sh["defer_close"] and sh["close_closes_handle"],
+         "ops_in_tx": bool(sh.get("shim_uses_tx")) and not sh.get("bypass")}
     order = ["rb_formcond", "rb_eval", "rb_condtrue", "rb_operr", "commit_stale_status", "commit_clears_on_err",
-             "close_skips_open_tx", "defer_close"]
+             "close_skips_open_tx", "defer_close", "ops_in_tx"]
     term = "(mkShape " + " ".join("true" if d[k] else "false" for k in order) + ")"
     return term, problems, d
 
@@ -347,7 +410,8 @@ def classify(case):
 def run(ck):
     quick = ck.tier == "quick"
     ck.cov["rule"] = ("requests of 1-8 operations (insert/update/delete/select/readrows/symbols/drop/sql incl. bare SQL) over a "
-                      "fresh SQLite file each, with one fault: an operation failing (22 kinds), an error condition "
+                      "fresh SQLite file each (25%% start with a schema-changing raw-SQL statement: CREATE TABLE/INDEX/VIEW, ALTER TABLE ADD "
+                      "COLUMN, DROP TABLE/INDEX/VIEW; tables, indexes, views and t's columns are compared), with one fault: an operation failing (22 kinds), an error condition "
                       "malformed / failing to evaluate / true with a status from {0,99,100,400..600,-1}, a commit failing on a "
                       "deferred foreign key, or a pre-transaction refusal; distinct_nontrivial = distinct (operation kinds, "
                       "fault) tuples among requests in which a write was executed before the fault or that commit >= 2 operations")
@@ -359,7 +423,7 @@ def run(ck):
     ck.trusted("harness/C17/c17_test.go: in-package driver of the real Handler on SQLite files and go/ast translator of "
                "handler.go / transaction.go / open.go", "props/C17.py: generator, simulated expected state, shape mapping, comparison")
     coq_ok = ck.coq_stage(GROUP, theorems=["C17_exits_closed", "C17_all_or_nothing", "C17_old_refuted_open",
-                                           "C17_old_refuted_commit"])
+                                           "C17_old_refuted_commit", "C17_bypass_refuted"])
 
     ok, binp = vf.go_test_build(ck.work, "internal/server/tables/scripting",
                                 {"internal/server/tables/scripting/zz_verif_c17_test.go":
@@ -380,6 +444,7 @@ def run(ck):
         shape_term, problems, shape_d = shape_from(sh)
         ck.cov["exit_table"] = [{k: e[k] for k in ("line", "site", "rollback", "after_commit", "status")} for e in sh["exits"]]
         ck.cov["shape"] = shape_d
+        ck.cov["handle_bypass_sites"] = sh.get("bypass")
 
     # ---- cases
     cases, last = corpus(ck.rng)
@@ -411,7 +476,8 @@ def run(ck):
         if o is None:
             ck.violation("harness-missing", "no output for case %s" % c["id"], replay={"cases": [c]}, found_input=False)
             continue
-        state = {"t": o["t"], "child": o["child"], "tables": o["tables"]}
+        state = {"t": o["t"], "child": o["child"], "tables": o["tables"], "indexes": o.get("indexes"), "views": o.get("views"),
+                 "tcols": o.get("tcols")}
         what = None
         if o.get("panic"):
             what, sig = "Handler panicked: %s" % o["panic"], "panic:" + cl
